@@ -389,8 +389,8 @@ Proof.
   assert (OL : orthoL qs).
   { intros i j Hi' Hj'. rewrite !Eqs by lia. apply On; lia. }
   assert (Worth : forall a, (a <= idx)%nat -> dot (col o (aQ s) a) (fst r) = 0).
-  { intros a Ha. rewrite Ew. apply (mgs_orth_gen qs [] new0); simpl; auto.
-    rewrite <- (Eqs a Ha). apply nth_In. lia. }
+  { intros a Ha. rewrite Ew. apply (mgs_orth_gen qs [] new0); [exact OL|intros ? []|].
+    cbn [app]. rewrite <- (Eqs a Ha). apply nth_In. lia. }
   assert (ww : dot (fst r) (fst r) = nr * nr) by (symmetry; apply (i_nrm_sq _ _ L)).
   split.
   - intros a b Ha Hb.
@@ -434,3 +434,10 @@ Proof. intros Hv s Hs. unfold arnoldi_batch in *. set (cap := Nat.min max_iters 
   pose proof (aloop_ainv cap max_iters cap ltac:(unfold cap; lia) 0 _ H0) as HF.
   rewrite Forall_forall in HF. destruct (HF s Hs) as [_ Gd Sb]. split; auto. Qed.
 End Alg.
+
+Theorem arnoldi_subdiag_nonneg {C V} (o : kops C V) (A : V -> V) (nonneg : C -> Prop) : ilaws o nonneg ->
+  forall (tol : C) (n : nat) (vs : list V) (max_iters : nat), Forall (fun v => o.(vnrm) v <> o.(c0)) vs ->
+  forall s, In s (snd (arnoldi_batch o A n vs max_iters tol)) ->
+  forall j, j < fst (arnoldi_batch o A n vs max_iters tol) -> nonneg (Hent o (aH s) (S j) j).
+Proof. intros L tol n vs mi Hv s Hs j Hj.
+  destruct (proj2 (arnoldi_run o A nonneg L tol n vs mi Hv s Hs) j Hj) as (x & ->). exact (i_nrm_nonneg _ _ L x). Qed.
